@@ -428,6 +428,11 @@ class IsolationOracle(Oracle):
                 continue
             if key == f"Groups/{model.root}" and subs == {"+"}:
                 continue
+            if parts[0] == "CA" and subs == {"+"} and (model.zombies.get(parts[2]) or {}).get("entry") == "parent":
+                # the record of a concatenated hole removed through its parent while the caller still holds it comes back with the
+                # close: the removal property's known finding (removal through the parent does not take the entity out of the file)
+                raise Violation("C05", "file_keeps_removed", f"the close wrote the attribute record of {parts[2]} again, a hole removed through its parent and still referenced",
+                                {"where": "concat_record", "entry": "parent"})
             if parts[0] in rawgeoh5.KINDS and (h, parts[1]) in self.deferred_links and all(x.startswith("children:") for x in subs):
                 continue
             if key == "project" and subs <= {"root", "top"} and f"Groups/{model.root}" not in self.pre_boundary:
@@ -489,7 +494,17 @@ class CopyOracle(Oracle):
         dst_root = new[info["dst"]]
         # between files of different format versions a drillhole group and its content change storage class (plain <-> concatenated)
         self._xver = world.version(info["h"]) != world.version(info["dh"])
-        self.match(src_model, info["src"], new, info["dst"], info, top=True)
+        try:
+            self.match(src_model, info["src"], new, info["dst"], info, top=True)
+        except Violation as vio:
+            dmodel = world.h[info["dh"]].model
+            reused = [u for u in new if getattr(dmodel, "removed_entry", {}).get(u) == "parent"]
+            if reused:
+                # the copy took the identifier of an entity removed through its parent, whose node (with its children) is still in the
+                # file: the known finding of the removal / equivalence properties, seen through the copy
+                raise Violation("C01", "state_differs", f"copy meets the node left by a removal through the parent: {vio.detail}",
+                                {"field": vio.discr.get("field"), "view": "LIVE", "reuses_uid_removed_by": "parent"}) from None
+            raise
         # the source is unchanged (LIVE) -- compare with the model, which the copy did not touch
         root = world.ent(info["h"], info["src"], fresh=True)
         live = snapshot.subtree(world.h[info["h"]].ws, root)
